@@ -628,3 +628,6 @@ mutant("M105-spec-check-by-identity", ["C18", "C19", "C20"], "SPEC-CHECK-2", (AR
 
 mutant("M106-reduced-chunks-sized-with-input-dtype", ["C03"], "MEM-DTYPE-1", (OPS, "    extra_projected_mem = x.chunkmem + 2 * array_memory(dtype, to_chunksize(chunks))", "    extra_projected_mem = x.chunkmem + 2 * array_memory(x.dtype, to_chunksize(chunks))"))
 mutant("M107-work-dir-used-directly", ["C19", "C20", "C10"], "CLEANUP-1", (PLAN, "    context_dir = join_path(work_dir, CONTEXT_ID)\n    delete_on_exit(context_dir)\n    return context_dir", "    if spec is not None and spec.work_dir is not None:\n        return str(spec.work_dir)\n    context_dir = join_path(work_dir, CONTEXT_ID)\n    delete_on_exit(context_dir)\n    return context_dir"))
+
+mutant("M108-pad-after-uses-before-value", ["C01"], "TWIN-ROLE-1", ("cubed/array/pad.py", "                    tuple(shape),\n                    val_after,", "                    tuple(shape),\n                    val_before,"))
+mutant("M109-blockview-nominal-chunks", ["C12"], "META-1", ("cubed/core/indexing.py", "        chunks = tuple(\n            tuple(np.array(ch)[ia].tolist())\n            for ia, ch in zip(idx.raw, self.array.chunks)\n        )", "        nsel = idx.newshape(self.array.numblocks)\n        chunks = tuple((cs,) * n for cs, n in zip(self.array.chunksize, nsel))"))
